@@ -255,6 +255,7 @@ class ReactionQueryReader(object):
     def ReadAtomType(self, tree):
         assert tree[0][0] == 'Symbols'
         symbol = tree[0][1][0]
+        radical, charge, valence = 0, 0, 0
 
         if len(tree) > 1:
             assert tree[1][0] == 'AtomSuffix'
